@@ -429,13 +429,20 @@ where
 
     unsafe fn maybe_changed_after(
         &self,
-        _zalsa: &Zalsa,
+        zalsa: &Zalsa,
         db: RawDatabase<'_>,
         input: Id,
         revision: Revision,
     ) -> VerifyResult {
+        // A memo restored from a persisted database can be validated through a dependent before
+        // this function was ever called directly in this database, i.e. before the generated code
+        // had a chance to initialize the view caster. Fall back to the casters the database has
+        // registered so far (functions nearly always share their database view).
+        let view_caster = self
+            .view_caster
+            .get_or_init(|| *zalsa.views().downcaster_for::<C::DbView>());
         // SAFETY: The `db` belongs to the ingredient as per caller invariant
-        let db = unsafe { self.view_caster().downcast_unchecked(db) };
+        let db = unsafe { view_caster.downcast_unchecked(db) };
         self.maybe_changed_after(db, input, revision)
     }
 
